@@ -32,9 +32,28 @@ def lean_files():
     return sorted(out)
 
 
-def forbidden_tokens():
+def import_closure(roots):
+    """HealSparse modules transitively imported by the given module names (files on disk)."""
+    seen, todo = set(), list(roots)
+    while todo:
+        mod = todo.pop()
+        if mod in seen:
+            continue
+        path = os.path.join(LEAN, *mod.split('.')) + '.lean'
+        if not os.path.exists(path):
+            continue
+        seen.add(mod)
+        for line in open(path):
+            m = re.match(r'\s*import\s+(HealSparse\.\S+)', line)
+            if m:
+                todo.append(m.group(1))
+    return sorted(os.path.join(LEAN, *m.split('.')) + '.lean' for m in seen)
+
+
+def forbidden_tokens(pid=None):
     hits = []
-    for f in lean_files():
+    files = lean_files() if pid is None else import_closure(['HealSparse.Props.' + pid, 'Driver'])
+    for f in files:
         src = strip_comments(open(f).read())
         for i, line in enumerate(src.split('\n'), 1):
             if FORBIDDEN.search(line):
